@@ -266,6 +266,63 @@ def large_windows(rep):
                         judge(window, sw, ch, None, thr, buf, "%s of %d samples" % (kind, n))
 
 
+def through_split(rep):
+    """The validator split() / AudioRegion.split() build from energy_threshold|eth and use_channel|uc is the same
+    validator: a stream of one window is a region exactly when the window is active (thresholds include 0, 0.0,
+    negative values and the documented default 50 written by omission)."""
+    common.import_auditok()
+    from auditok import core
+
+    rate = 10
+    for sw in (1, 2, 4):
+        for ch in (1, 2):
+            alpha = MID_Q[sw] + ([100, 400] if sw > 1 else [100])
+            if ch == 2:
+                alpha = [alpha[0], 0, 10, alpha[-1]]
+            for flat in itertools.product(alpha, repeat=2 * ch):
+                window = [tuple(flat[i * ch : (i + 1) * ch]) for i in range(2)]
+                data = encode(window, sw)
+                for sel in ([None] if ch == 1 else [None, "mix", 0, -1]):
+                    ms = mean_square(window, sel, ch)
+                    db = exact_db(ms)
+                    for ti, thr in enumerate((None, 0, 0.0, -1, -200, 20, 50.0)):
+                        exp = expected(ms, db, 50 if thr is None else thr)
+                        if exp is None:
+                            rep.add("ambiguous_skipped")
+                            continue
+                        kw = dict(min_dur=0.2, max_dur=0.2, max_silence=0, sr=rate, sw=sw, ch=ch)
+                        short = (ti + len(flat) + flat[0]) % 2
+                        kw["aw" if short else "analysis_window"] = 0.2
+                        if thr is not None:
+                            kw["eth" if short else "energy_threshold"] = thr
+                        if sel is not None:
+                            kw["uc" if short else "use_channel"] = sel
+                        for how in ("function", "method"):
+                            rep.add("evaluations")
+                            rep.add("through_split")
+                            rep.add("distinct_nontrivial", int(exp))
+                            try:
+                                if how == "function":
+                                    regs = list(core.split(data, **kw))
+                                else:
+                                    k2 = {k: v for k, v in kw.items() if k not in ("sr", "sw", "ch")}
+                                    regs = list(core.AudioRegion(data, rate, sw, ch).split(**k2))
+                                got = len(regs) == 1 and bytes(regs[0]) == data
+                                if len(regs) > 1 or (regs and not got):
+                                    got = "regions %r" % (regs,)
+                            except Exception as exc:
+                                got = "raised %r" % (exc,)
+                            if got != exp:
+                                rep.violation("split-validator sw=%d ch=%d window=%s sel=%r thr=%r how=%s" % (sw, ch, window, sel, thr, how),
+                                              "split (%s) of the single window %s (%d-byte samples, selection %r, threshold %s%s): %s, exact "
+                                              "decision is %s (%.6f dB)" % (how, window, sw, sel, "default 50" if thr is None else repr(thr),
+                                                                            ", short names" if short else "",
+                                                                            "a region" if got is True else "no region" if got is False else got,
+                                                                            "active" if exp else "not active", float(db)),
+                                              {"kind": "split_validator"})
+                                return
+
+
 def run(prop, tier):
     lib()
     rep = common.Report(prop, tier, "bounded-exhaustive enumeration of windows over a sample alphabet x thresholds x channel "
@@ -290,6 +347,7 @@ def run(prop, tier):
     rep.cov["bounds"] = {"widths": [1, 2, 4], "channels": [1, 2, 3], "window_samples": "1..3" if quick else "1..4",
                          "thresholds": (QUICK_THR if quick else FIXED_THR) + ["exact energy", "exact energy +-1e-6"]}
     large_windows(rep)
+    through_split(rep)
     for part in common.pmap(work, tasks):
         rep.merge(part)
     rep.cov["states"] = rep.cov.get("windows", 0)
@@ -303,6 +361,10 @@ def run(prop, tier):
 
 def replay(case):
     AEV = lib()["AEV"]
+    if case["kind"] == "split_validator":
+        rep = common.Report("C07", "quick", "")
+        through_split(rep)
+        return rep.violations[0][1] if rep.violations else None
     if case["kind"] == "winL":
         rep = common.Report("C07", "quick", "")
         large_windows(rep)
